@@ -126,6 +126,55 @@ def nlm_build(mtype, p):
     raise ValueError(mtype)
 
 
+class NLMalformed(Exception):
+    pass
+
+
+def nlm_parse(mtype, body):
+    """parameters of a network layer message body per 6.4; NLMalformed when it is cut short"""
+    body = bytes(body)
+
+    def need(n, at=0):
+        if len(body) < at + n:
+            raise NLMalformed("cut short")
+
+    if mtype == 0x00:
+        if len(body) == 0:
+            return {"net": None}
+        need(2)
+        return {"net": struct.unpack(">H", body[:2])[0]}
+    if mtype in (0x01, 0x04, 0x05):
+        if len(body) % 2:
+            raise NLMalformed("half a network number")
+        return {"nets": [struct.unpack(">H", body[i:i + 2])[0] for i in range(0, len(body), 2)]}
+    if mtype in (0x02, 0x08, 0x13):
+        need(3)
+        a, b_ = struct.unpack(">HB", body[:3])
+        return {"net": a, {0x02: "perf", 0x08: "time", 0x13: "flag"}[mtype]: b_}
+    if mtype == 0x03:
+        need(3)
+        r, n = struct.unpack(">BH", body[:3])
+        return {"reason": r, "net": n}
+    if mtype in (0x06, 0x07):
+        need(1)
+        table = []
+        i = 1
+        for _ in range(body[0]):
+            need(4, i)
+            dnet, port, ln = struct.unpack(">HBB", body[i:i + 4])
+            i += 4
+            need(ln, i)
+            table.append((dnet, port, body[i:i + ln]))
+            i += ln
+        return {"table": table}
+    if mtype == 0x09:
+        need(2)
+        return {"net": struct.unpack(">H", body[:2])[0]}
+    if mtype == 0x12:
+        return {}
+    raise ValueError(mtype)
+
+
 # ----------------------------------------------------------------------
 # APCI (20.1)
 # ----------------------------------------------------------------------
